@@ -131,9 +131,16 @@ Lemma log_names_snoc : forall log full t,
   log_names (log ++ [full]) t = log_names log t ++ names_of (batch_rows (meta_columns_of t) full).
 Proof. intros. unfold log_names. rewrite acked_rows_snoc, names_of_app. reflexivity. Qed.
 
+(* the entries ingest_efficient adds: rows for _meta_tables, catalogue rows for _meta_columns_<t> *)
+Definition meta_row_ok (n : name) (r : row) : Prop :=
+  (n = s_meta_tables /\ incl (row_cols r) [s_timestamp; s_name]) \/
+  (is_meta_columns n = true /\ cat_row r).
+
+Definition extra_ok (tb : tbatch) : Prop := Forall (meta_row_ok (tb_name tb)) (tb_rows tb).
+
 Definition seg_ok (pre : list batch) (full : batch) : Prop :=
   exists b extra,
-    full = b ++ extra /\ wf_batch b /\ meta_named extra /\
+    full = b ++ extra /\ wf_batch b /\ meta_named extra /\ Forall extra_ok extra /\
     forall t, user_table t = true ->
       Forall cat_row (batch_rows (meta_columns_of t) full) /\
       names_of (batch_rows (meta_columns_of t) full) =
@@ -152,7 +159,7 @@ Lemma seg_client_rows : forall pre full t, seg_ok pre full -> user_table t = tru
             names_of (batch_rows (meta_columns_of t) full) =
               match find_tb t b with Some tb => new_names (log_names pre t) (tb_cols tb) | None => [] end.
 Proof.
-  intros pre full t [b [extra [-> [W [M H]]]]] Hu. exists b. split; auto. split.
+  intros pre full t [b [extra [-> [W [M [_ H]]]]]] Hu. exists b. split; auto. split.
   - rewrite batch_rows_app, (meta_named_rows _ _ M Hu), app_nil_r. apply batch_rows_find. apply (wb_names _ W).
   - apply H. exact Hu.
 Qed.
@@ -173,7 +180,7 @@ Lemma log_cat_rows : forall log t, log_ok log -> user_table t = true ->
 Proof.
   intros log t H Hu. induction H as [|log full H IH S]; [constructor|].
   rewrite acked_rows_snoc. apply Forall_app. split; auto.
-  destruct S as [b [extra [-> [W [M Hs]]]]]. apply Hs. exact Hu.
+  destruct S as [b [extra [-> [W [M [_ Hs]]]]]]. apply Hs. exact Hu.
 Qed.
 
 Lemma log_string_column : forall log t, log_ok log -> user_table t = true ->
@@ -191,7 +198,7 @@ Proof.
   intros log t x H Hu. induction H as [|log full H IH S].
   - split; [intros []|intros [f [tb [[] _]]]].
   - rewrite log_names_snoc, in_app_iff, IH.
-    destruct S as [b [extra [Ef [W [M Hs]]]]]. destruct (Hs t Hu) as [_ En]. rewrite En. clear En.
+    destruct S as [b [extra [Ef [W [M [_ Hs]]]]]]. destruct (Hs t Hu) as [_ En]. rewrite En. clear En.
     split.
     + intros [[f [tb [Hf Ht]]]|Hn].
       * exists f, tb. split; [apply in_or_app; left; exact Hf|exact Ht].
@@ -250,6 +257,30 @@ Proof.
     + discriminate.
   - assert (Hl : log_names log t <> []) by (apply IH; discriminate).
     destruct (log_names log t); [contradiction|discriminate].
+Qed.
+
+(* L6: what the rows of a catalogue table look like *)
+Lemma batch_rows_forall : forall (P : name -> row -> Prop) b n,
+  Forall (fun tb => Forall (P (tb_name tb)) (tb_rows tb)) b -> Forall (P n) (batch_rows n b).
+Proof.
+  intros P b n H. induction H as [|tb b H1 H2 IH]; [constructor|]. rewrite batch_rows_cons.
+  apply Forall_app. split; auto. destruct (name_eqb (tb_name tb) n) eqn:E; [|constructor].
+  apply name_eqb_eq in E. subst. exact H1.
+Qed.
+
+Lemma log_meta_rows : forall log n, log_ok log -> user_table n = false ->
+  Forall (meta_row_ok n) (acked_rows log n).
+Proof.
+  intros log n H Hu. induction H as [|log full H IH S]; [constructor|].
+  rewrite acked_rows_snoc. apply Forall_app. split; auto.
+  destruct S as [b [extra [-> [W [M [Hx _]]]]]]. rewrite batch_rows_app. apply Forall_app. split.
+  - assert (E : batch_rows n b = []).
+    { pose proof (wb_user _ W) as Hb. clear - Hb Hu. induction b as [|tb b IH]; [reflexivity|].
+      inversion Hb; subst. rewrite batch_rows_cons. destruct (name_eqb (tb_name tb) n) eqn:E.
+      - apply name_eqb_eq in E. subst. congruence.
+      - cbn. apply IH. assumption. }
+    rewrite E. constructor.
+  - apply (batch_rows_forall meta_row_ok). exact Hx.
 Qed.
 
 Lemma log_ok_prefix : forall a b, log_ok (a ++ b) -> log_ok a.
